@@ -1288,3 +1288,13 @@ pub mod package {
 		template
 	}
 }
+
+/// Canonical text of the payment / HTLC state a `ChannelManager` persists outside of its channels
+/// (claimable payments per HTLC, pending claiming payments, forwards, intercepted HTLCs, HTLCs
+/// awaiting decoding, outbound payment states, pending and background events, blocked completion
+/// actions, in-flight update ids). Read-only (C12).
+pub fn manager_persisted_state_dump<CM: crate::ln::channelmanager::AChannelManager>(
+	node: &CM,
+) -> alloc::vec::Vec<alloc::string::String> {
+	node.get_cm().verif_persisted_state_dump()
+}
